@@ -173,6 +173,8 @@ def write_domain(bms, lanes):
         if abs(m - round(m)) > F(1, 10**7):
             return "tempo_point_off_measure_line", None
     beats = [F(round(b / 4) * 4) for b in beats]
+    if beats[-1] >= 4000:
+        return "beyond_measure_999", None
     tl = rt.RefBeats(F(0), [(b, F(v)) for b, (t, v, _) in zip(beats, pts)])
     tl.ms = [F(t) for t, _, _ in pts]
     cols = set(lanes.values())
@@ -196,6 +198,8 @@ def write_domain(bms, lanes):
             if t < 0 or not math.isfinite(t):
                 return "negative_or_non_finite_time", None
             b = tl.beat_of_ms(t)
+            if b >= 4000:
+                return "beyond_measure_999", None
             fr = b - (b // 1)
             cands, dist = rt.nearest_farey(fr, 96)
             g = (b // 1) + min(cands)
